@@ -10,12 +10,27 @@
 //                   "PHASE <name>" / "N <id> %a %a %a %a" (xmin ymin xmax ymax) / "P <edge> <src> <dst> <k> (<node> <kind> %a %a)*k" / "END"
 //                 kind: libtopology RectIntersect (0 TR, 1 BR, 2 BL, 3 TL, 4 CENTRE).  "EXC <what>" if an assertion of the
 //                 library (assertNoSegmentRectIntersection, assertConvexBends, assertFeasible, noOverlaps ...) fired.
+//  mode `scenes` : stdin = explicit scenes (lattice-aligned and resize families of checks/c13.py); every scene runs in a
+//                 fork()ed child (an NDEBUG build of a broken library may loop or crash):
+//                   SCENE <tag>
+//                   NODE x0 x1 y0 y1                         (id = order of appearance)
+//                   EDGE k (node kind)*k                     (id = order; kinds as above, first/last = 4)
+//                   MOVE dim k (id desired weight)*k         ColaTopologyAddon::moveTo: one TopologyConstraints, solve() until not interrupted
+//                   RESIZE k (id x y w h)*k                  ColaTopologyAddon::handleResizes (topology::applyResizes)
+//                   LAYOUT iters nl (id x y)*nl nr (id x y w h)*nr   ConstrainedFDLayout::run with the addon, PreIteration locks (all
+//                                                            iterations) and resizes (first iteration)
+//                   ENDSCENE
+//                 prints "SCENE <tag>", PHASE blocks ("before", "op<i>", and "op<i>.it<j>" per layout iteration), "EXC ..." and
+//                 "ENDSCENE <tag> <ok|signal n|exit n|timeout>".
 #include <cstdio>
 #include <cstdlib>
 #include <cstring>
 #include <cstddef>
 #include <cfloat>
 #include <sys/time.h>
+#include <sys/wait.h>
+#include <unistd.h>
+#include <signal.h>
 #include <vector>
 #include <string>
 #include <iostream>
@@ -83,8 +98,10 @@ static int tri_mode()
             double m = t->maxSafeAlpha();
             printf("%a %a %a %a\n", m, t->slackAtInitial(), t->slackAtFinal(), t->slack(x[1], x[2], x[5]));
             delete t;
+#ifndef NDEBUG
         } catch (vpsc::CriticalFailure &f) {
             printf("EXC %s\n", f.expr);
+#endif
         } catch (...) {
             printf("EXC unknown\n");
         }
@@ -114,11 +131,11 @@ static void dump(const char *phase, std::vector<topology::Node*> &tn, std::vecto
 
 // convergence test that also dumps the topology after every iteration of the topology-preserving run ("during layout")
 struct DumpingTest : public cola::TestConvergence {
-    std::vector<topology::Node*> *tn; std::vector<topology::Edge*> *routes; std::vector<cola::Edge> *es; bool on; int it;
-    DumpingTest(double tol, unsigned maxit) : cola::TestConvergence(tol, maxit), tn(nullptr), routes(nullptr), es(nullptr), on(false), it(0) {}
+    std::vector<topology::Node*> *tn; std::vector<topology::Edge*> *routes; std::vector<cola::Edge> *es; bool on; int it; const char *prefix;
+    DumpingTest(double tol, unsigned maxit) : cola::TestConvergence(tol, maxit), tn(nullptr), routes(nullptr), es(nullptr), on(false), it(0), prefix(nullptr) {}
     virtual bool operator()(const double new_stress, std::valarray<double> &X, std::valarray<double> &Y) {
         bool r = cola::TestConvergence::operator()(new_stress, X, Y);
-        if (on) { char nm[32]; snprintf(nm, sizeof nm, "iter%d", ++it); dump(nm, *tn, *routes, *es); }
+        if (on) { char nm[64]; if (prefix) snprintf(nm, sizeof nm, "%s.it%d", prefix, ++it); else snprintf(nm, sizeof nm, "iter%d", ++it); dump(nm, *tn, *routes, *es); }
         return r;
     }
 };
@@ -238,8 +255,10 @@ static int layout_mode(unsigned long long seed, unsigned V, unsigned extra, doub
         alg.setTopology(&topo);
         alg.run();
         dump("after", tn, routes, es);
+#ifndef NDEBUG
     } catch (vpsc::CriticalFailure &f) {
         printf("EXC %s | %s:%d\n", f.expr, f.file, f.line);
+#endif
     } catch (const char *s) {
         printf("EXC %s\n", s);
     } catch (std::exception &e) {
@@ -250,8 +269,158 @@ static int layout_mode(unsigned long long seed, unsigned V, unsigned extra, doub
     return 0;
 }
 
+
+// ------------------------------------------------------------------------------------------------ explicit scenes
+struct ScenePre : public cola::PreIteration {
+    cola::Locks lk; cola::Resizes rz; int calls;
+    ScenePre() : cola::PreIteration(lk, rz), calls(0) {}
+    virtual bool operator()() { if (++calls > 1) rz.clear(); changed = calls <= 2; return true; }
+};
+
+static int run_scene(const std::vector<std::string> &lines)
+{
+    std::vector<vpsc::Rectangle*> rs;
+    std::vector<topology::Node*> tn;
+    std::vector<topology::Edge*> routes;
+    std::vector<cola::Edge> es;
+    bool dumped = false;
+    int opno = 0;
+    char nm[48];
+    try {
+        for (size_t li = 0; li < lines.size(); ++li) {
+            std::istringstream is(lines[li]);
+            std::string cmd; is >> cmd;
+            if (cmd == "NODE") {
+                double x0, x1, y0, y1; is >> x0 >> x1 >> y0 >> y1;
+                vpsc::Rectangle *r = new vpsc::Rectangle(x0, x1, y0, y1);
+                rs.push_back(r);
+                tn.push_back(new topology::Node(rs.size() - 1, r));
+                continue;
+            }
+            if (cmd == "EDGE") {
+                unsigned k; is >> k;
+                std::vector<topology::EdgePoint*> eps;
+                unsigned first = 0, last = 0;
+                for (unsigned j = 0; j < k; ++j) {
+                    unsigned nd; int kind; is >> nd >> kind;
+                    if (j == 0) first = nd;
+                    last = nd;
+                    eps.push_back(new topology::EdgePoint(tn.at(nd), (topology::EdgePoint::RectIntersect) kind));
+                }
+                es.push_back(std::make_pair(first, last));
+                routes.push_back(new topology::Edge(routes.size(), 40, eps));
+                continue;
+            }
+            if (!dumped) { dump("before", tn, routes, es); dumped = true; }
+            ++opno;
+            snprintf(nm, sizeof nm, "op%d", opno);
+            unsigned n = rs.size();
+            if (cmd == "MOVE") {
+                int dim; unsigned k; is >> dim >> k;
+                vpsc::Dim d = dim == 0 ? vpsc::HORIZONTAL : vpsc::VERTICAL;
+                std::valarray<double> coords(n);
+                vpsc::Variables vs(n);
+                vpsc::Constraints cs;
+                for (unsigned i = 0; i < n; ++i) {
+                    coords[i] = rs[i]->getCentreD(d);
+                    vs[i] = new vpsc::Variable(i, coords[i]);
+                }
+                for (unsigned j = 0; j < k; ++j) {
+                    unsigned id; double des, w; is >> id >> des >> w;
+                    vs.at(id)->desiredPosition = des; vs[id]->weight = w;
+                }
+                topology::ColaTopologyAddon topo(tn, routes);
+                topo.moveTo(d, vs, cs, coords, nullptr);
+                for (size_t i = 0; i < vs.size(); ++i) delete vs[i];
+                for (size_t i = 0; i < cs.size(); ++i) delete cs[i];
+                dump(nm, tn, routes, es);
+            } else if (cmd == "RESIZE") {
+                unsigned k; is >> k;
+                cola::Resizes rz;
+                for (unsigned j = 0; j < k; ++j) {
+                    unsigned id; double x, y, w, h; is >> id >> x >> y >> w >> h;
+                    rz.push_back(cola::Resize(id, x, y, w, h));
+                }
+                std::valarray<double> X(n), Y(n);
+                for (unsigned i = 0; i < n; ++i) { X[i] = rs[i]->getCentreX(); Y[i] = rs[i]->getCentreY(); }
+                cola::CompoundConstraints ccs;
+                topology::ColaTopologyAddon topo(tn, routes);
+                topo.handleResizes(rz, n, X, Y, ccs, rs, nullptr);
+                dump(nm, tn, routes, es);
+            } else if (cmd == "LAYOUT") {
+                unsigned iters, nl, nr; is >> iters >> nl;
+                ScenePre pre;
+                for (unsigned j = 0; j < nl; ++j) { unsigned id; double x, y; is >> id >> x >> y; pre.lk.push_back(cola::Lock(id, x, y)); }
+                is >> nr;
+                for (unsigned j = 0; j < nr; ++j) { unsigned id; double x, y, w, h; is >> id >> x >> y >> w >> h; pre.rz.push_back(cola::Resize(id, x, y, w, h)); }
+                DumpingTest test(0.0001, iters);
+                cola::ConstrainedFDLayout alg(rs, es, 40, cola::StandardEdgeLengths, &test, &pre);
+                topology::ColaTopologyAddon topo(tn, routes);
+                alg.setTopology(&topo);
+                test.tn = &tn; test.routes = &routes; test.es = &es; test.on = true;
+                test.prefix = nm;
+                alg.run();
+                dump(nm, tn, routes, es);
+            } else {
+                printf("EXC bad script line %s\n", lines[li].c_str());
+                return 3;
+            }
+        }
+#ifndef NDEBUG
+    } catch (vpsc::CriticalFailure &f) {
+        printf("EXC %s | %s:%d | %s | op%d\n", f.expr, f.file, f.line, f.function ? f.function : "?", opno);
+        snprintf(nm, sizeof nm, "op%d.atexc", opno);
+        dump(nm, tn, routes, es);
+#endif
+    } catch (const char *s) {
+        printf("EXC %s | op%d\n", s, opno);
+    } catch (std::exception &e) {
+        printf("EXC std %s | op%d\n", e.what(), opno);
+    } catch (...) {
+        printf("EXC unknown | op%d\n", opno);
+    }
+    return 0;
+}
+
+static int scenes_mode(int tmo)
+{
+    std::string line, tag;
+    std::vector<std::string> cur;
+    bool in = false;
+    while (std::getline(std::cin, line)) {
+        if (line.compare(0, 6, "SCENE ") == 0) { tag = line.substr(6); cur.clear(); in = true; continue; }
+        if (line == "ENDSCENE" && in) {
+            in = false;
+            printf("SCENE %s\n", tag.c_str());
+            fflush(stdout);
+            pid_t pid = fork();
+            if (pid == 0) {
+                alarm(tmo);
+                int rc = run_scene(cur);
+                fflush(stdout);
+                _exit(rc);
+            }
+            int st = 0;
+            waitpid(pid, &st, 0);
+            if (WIFSIGNALED(st) && WTERMSIG(st) == SIGALRM) printf("\nENDSCENE %s timeout\n", tag.c_str());
+            else if (WIFSIGNALED(st)) printf("\nENDSCENE %s signal %d\n", tag.c_str(), WTERMSIG(st));
+            else if (WEXITSTATUS(st) != 0) printf("\nENDSCENE %s exit %d\n", tag.c_str(), WEXITSTATUS(st));
+            else printf("\nENDSCENE %s ok\n", tag.c_str());
+            fflush(stdout);
+            continue;
+        }
+        if (in && !line.empty()) cur.push_back(line);
+    }
+    return 0;
+}
+
 int main(int argc, char **argv)
 {
+    if (argc > 1 && !strcmp(argv[1], "scenes")) {
+        topology::FILELog::ReportingLevel() = topology::logERROR;
+        cola::FILELog::ReportingLevel() = cola::logERROR;
+        return scenes_mode(argc > 2 ? atoi(argv[2]) : 10);
+    }
     topology::FILELog::ReportingLevel() = topology::logERROR;
     cola::FILELog::ReportingLevel() = cola::logERROR;
     if (argc > 1 && !strcmp(argv[1], "tri")) return tri_mode();
